@@ -132,6 +132,19 @@ def main(argv=None):
 
     if new_violations:
         v = new_violations[0]
+        # minimise the replay when the failing case is a (query, document) pair judged by the sweep
+        if isinstance(v.get("query"), str) and "document" in v and isinstance(v.get("env"), dict) and \
+                str(v.get("what", "")).startswith(("find() differs", "evaluation of a valid")):
+            try:
+                import sweep as _sw
+
+                q2, d2 = _sw.shrink(v["env"], v["query"], v["document"], args.prop)
+                if (q2, d2) != (v["query"], v["document"]):
+                    v = dict(v, shrunk_from={"query": v["query"], "document": v["document"]}, query=q2, document=d2,
+                             observed="(re-run with --replay for the outcome on the minimised input)", expected="see --replay")
+                    new_violations[0] = v
+            except Exception:  # noqa: BLE001
+                pass
         pid = v.get("property", args.prop)
         path = fw.write_replay(pid, {"kind": "failing-input", **v, "others": len(new_violations) - 1,
                                       "broken_obligations": proof_problems,
